@@ -330,7 +330,41 @@ def mech_tags(fl, mangled):
             prev = [x for x in fl[:i] if x["k"] not in ("blank", "hash")]
             if prev and prev[-1]["k"] in ("text", "help"):
                 tags.add("tab-indented-line-after-help")
+        if kind in ("tab", "tab+trail") and fl[i]["k"] == "text":
+            # a tab-indented line inside a help text whose first line stands deeper than expected
+            j = i
+            while j > 0 and fl[j]["k"] != "help":
+                j -= 1
+            first = next((x for x in range(j + 1, i) if fl[x]["k"] == "text"), None)
+            if first is not None and any(x == first and k_ == "more" for x, k_ in mangled):
+                tags.add("tab-line-in-help-with-deeper-first-line")
     return tags
+
+
+def help_depth_variants(can):
+    """Hand-made manglings (not left to the seed): in every help text of two lines or more the first line stands one
+    column deeper and a later line is indented with tabs."""
+    out = []
+    i = 0
+    while i < len(can):
+        if can[i]["k"] == "help":
+            texts = []
+            x = i + 1
+            while x < len(can) and can[x]["k"] in ("text", "blank"):
+                if can[x]["k"] == "text":
+                    texts.append(x)
+                x += 1
+            if len(texts) >= 2:
+                lines = copy.deepcopy(can)
+                lines[texts[0]]["lead"] += " "
+                ln = lines[texts[1]]
+                n4 = len(ln["lead"]) // 4
+                ln["lead"] = "\t" * n4 + ln["lead"][4 * n4:] if n4 else "\t"
+                out.append((lines, [(texts[0], "more"), (texts[1], "tab")]))
+            i = x
+        else:
+            i += 1
+    return out[:2]
 
 
 def main(run):
@@ -362,6 +396,8 @@ def main(run):
         for j in range(per):
             m, changed = mangle(can, brng, brng.choice([1, 1, 2, 3]))
             variants.append((m, False, changed))
+        if bi < 4:
+            variants += [(m, False, changed) for m, changed in help_depth_variants(can)]
         for lines, is_can, changed in variants:
             obs, err = run_file(run, d, lines, maxpasses)
             if err:
